@@ -163,12 +163,14 @@ type View struct {
 	Frontier []PosWrite // HSET <cp>:frontier
 	Latest   []PosWrite // HSET latest:{tag}
 	Root     []PosWrite // HSET <cp> <runid>_offset
+	Seeds    []PosWrite // latest records seeded by a namespace migration (outside any unit)
 	Deletes  []int64    // request numbers of journal DEL / ZREM
 	Strays   []Stray
 }
 
-// Interpret parses an effect log (lineage order) against the unit table.
-func Interpret(apps []fakeredis.App, units []Unit, frontierMode bool, runID string) *View {
+// Interpret parses an effect log (lineage order) against the unit table.  Which record kind a
+// unit must carry depends on the mode of the instance that wrote it: Judge checks that.
+func Interpret(apps []fakeredis.App, units []Unit, runID string) *View {
 	v := &View{}
 	byID := map[string]*Unit{}
 	for i := range units {
@@ -205,10 +207,6 @@ func Interpret(apps []fakeredis.App, units []Unit, frontierMode bool, runID stri
 			t.Bad = "unit record without business commands"
 		case t.RecCls == 0:
 			t.Bad = "business commands without a unit record in the same transaction"
-		case frontierMode && t.RecCls != KCommit:
-			t.Bad = "journal mode unit carries a " + t.RecCls.String() + " record"
-		case !frontierMode && t.RecCls != KLatest:
-			t.Bad = "sync mode unit carries a " + t.RecCls.String() + " record"
 		case t.RecCls == KCommit && !t.Index:
 			t.Bad = "journal record without its index entry in the same transaction"
 		case t.Unit != nil && t.End != t.Unit.End:
@@ -235,15 +233,23 @@ func Interpret(apps []fakeredis.App, units []Unit, frontierMode bool, runID stri
 					v.Strays = append(v.Strays, Stray{a.ReqSeq, "business command " + id + " executed outside a unit transaction"})
 				}
 			case KLatest, KCommit, KMarker:
-				if a.Cmd == "DEL" || a.Cmd == "UNLINK" {
-					v.Deletes = append(v.Deletes, a.ReqSeq)
-				} else {
+				f := hfields(a.Args)
+				switch {
+				case a.Cmd == "DEL" || a.Cmd == "UNLINK":
+					if cls == KCommit {
+						v.Deletes = append(v.Deletes, a.ReqSeq)
+					}
+				case cls == KLatest && a.Cmd == "HSET" && f["start_offset"] == f["end_offset"] && f["digest"] == "":
+					// the seed a namespace migration writes (syncer.seedBisyncNamespace): no unit, no data
+					v.Seeds = append(v.Seeds, PosWrite{ReqSeq: a.ReqSeq, Cls: cls, Seq: atoi64(f["unit_seq"]), Off: atoi64(f["end_offset"])})
+					v.Latest = append(v.Latest, PosWrite{ReqSeq: a.ReqSeq, Cls: cls, Seq: atoi64(f["unit_seq"]), Off: atoi64(f["end_offset"])})
+				default:
 					v.Strays = append(v.Strays, Stray{a.ReqSeq, a.Cmd + " on a " + cls.String() + " key outside a unit transaction"})
 				}
 			case KIndex:
-				if a.Cmd == "ZREM" || a.Cmd == "DEL" || a.Cmd == "ZREMRANGEBYSCORE" {
+				if a.Cmd == "ZREM" {
 					v.Deletes = append(v.Deletes, a.ReqSeq)
-				} else {
+				} else if a.Cmd != "DEL" && a.Cmd != "UNLINK" && a.Cmd != "ZREMRANGEBYSCORE" {
 					v.Strays = append(v.Strays, Stray{a.ReqSeq, a.Cmd + " on the journal index outside a unit transaction"})
 				}
 			case KFrontier:
